@@ -212,6 +212,9 @@ func cmdCheck(args []string) {
 				}
 				if j.spec.Timeout > 0 {
 					cfg.timeout = time.Duration(j.spec.Timeout) * time.Second
+					if *tier != "thorough" && cfg.timeout > 10*time.Minute {
+						cfg.timeout = 10 * time.Minute // registry time-outs above the default are meant for the thorough tier
+					}
 				}
 				if !*noCross {
 					cfg.logDir = smtDir
@@ -575,7 +578,7 @@ func runNativeNames(pkgName, rel string, names []string, paths []string, ovFiles
 	writeJSON(ovPath, map[string]interface{}{"Replace": ov})
 	listPath := filepath.Join(work, "list_"+tag+".txt")
 	os.WriteFile(listPath, []byte(strings.Join(paths, "\n")+"\n"), 0o644)
-	cmd := exec.Command("go", "test", "-tags", buildTags, "-overlay", ovPath, "-run", "^TestVerifReplay$", "-count=1", "-v", "-vet=off", "-timeout", "20m", "./"+rel+"/")
+	cmd := exec.Command("go", "test", "-tags", buildTags, "-overlay", ovPath, "-run", "^TestVerifReplay$", "-count=1", "-v", "-vet=off", "-timeout", "6m", "./"+rel+"/")
 	cmd.Dir = repoDir
 	cmd.Env = append(os.Environ(), "GOFLAGS=-mod=mod", "GOPROXY=off", "GOTOOLCHAIN=local", "VERIF_REPLAY_LIST="+listPath, "VERIF_REPEAT="+strconv.Itoa(repeat))
 	out, err := cmd.CombinedOutput()
